@@ -32,7 +32,7 @@ import time
 
 from . import mcgen, tlaval, tlc
 from . import replay as rpl
-from .common import CheckResult, Scratch, parallel, rng
+from .common import CheckResult, Scratch, parallel, rng, seed as verif_seed
 from .realobj import mk_profile, mk_strategy, ns, us
 
 PID = "C15"
@@ -483,20 +483,22 @@ def _t_job(salt, n, tier):
     crashed = [h for h in histories if "crash" in h]
     for h in crashed[:2]:
         res.violate(
-            "C15.crash",
+            _crash_clause(h["crash"]),
             f"ClockworkScheduler raised on a random history: {h['crash']}",
             {"history": h},
             key=f"crash|{h['crash'].split(':')[0]}",
         )
     res.extra["random_histories"] = {
+        "jobs": 1,
         "histories": len(histories),
         "calls": sum(len(h["calls"]) for h in histories),
         "crashed": len(crashed),
         "clockwork": sum(h["goal"] == "clockwork" for h in histories),
         "least_slack": sum(h["goal"] == "least_slack" for h in histories),
-        "max_requests": max(len(h["world"]["reqs"]) for h in histories),
+        "with_12_requests": sum(len(h["world"]["reqs"]) == 12 for h in histories),
         "run_wall_s": round(time.time() - t0, 1),
     }
+    res.extra["random_histories"] = {salt: res.extra["random_histories"]}
     check_histories(res, histories, f"random@{salt}", chunk=3000, par=False)
     if salt.endswith("T0"):
         for h in histories:
@@ -552,7 +554,7 @@ def mc_worlds(tier):
     if tier != "quick":
         w["b124"] = {
             "Strats": {"A": S124, "B": S12d},
-            "Reqs": [Q("A", {4}), Q("A", {4, 6}), Q("A", {5}), Q("A", {3, 6}), Q("B", {3, 4})],
+            "Reqs": [Q("A", {3, 4}), Q("A", {4, 6}), Q("A", {5}), Q("A", {3, 6}), Q("B", {3, 4}), Q("B", {5})],
             "Workers": [Wk(2, "AB")],
             "InitOrder": [],
             "MaxT": 6,
@@ -560,7 +562,7 @@ def mc_worlds(tier):
         }
         w["b124_2w"] = {
             "Strats": {"A": S124, "B": S12d},
-            "Reqs": [Q("A", {5}), Q("A", {5}), Q("B", {3, 5}), Q("A", {4, 6}), Q("A", {6})],
+            "Reqs": [Q("A", {5}), Q("A", {4, 5}), Q("B", {3, 5}), Q("A", {4, 6}), Q("A", {5, 6}), Q("B", {4})],
             "Workers": [Wk(1, "AB"), Wk(2, "A")],
             "InitOrder": ["B"],
             "MaxT": 6,
@@ -572,6 +574,15 @@ def mc_worlds(tier):
             "Workers": [Wk(2, "AB")],
             "InitOrder": [],
             "MaxT": 6,
+            "Steps": {1, 2},
+        }
+        # six requests, three per model
+        w["6req"] = {
+            "Strats": {"A": S124, "B": S12},
+            "Reqs": [Q("A", {4}), Q("B", {3, 5}), Q("A", {4, 6}), Q("B", {5}), Q("A", {3, 5}), Q("B", {4})],
+            "Workers": [Wk(1, "AB"), Wk(1, "B")],
+            "InitOrder": [],
+            "MaxT": 5,
             "Steps": {1, 2},
         }
     return w
@@ -596,12 +607,22 @@ def replay_worlds(tier):
         "MaxT": 3,
         "Steps": {1},
     }
+    # three requests of one model: the queues of its strategies differ after per-strategy expiry
+    w["r3"] = {
+        "Strats": {"A": S12},
+        "Reqs": [Q("A", {1, 3}), Q("A", {3}), Q("A", {2, 3})],
+        "Workers": [Wk(2, "A")],
+        "InitOrder": [],
+        "MaxT": 3,
+        "Steps": {1},
+    }
     return w
 
 
-# a bigger world explored with `-simulate` only
-def simulate_world(tier):
-    return {
+# bigger worlds explored with `-simulate` only
+def simulate_worlds(tier):
+    w = {}
+    w["simA"] = {
         "Strats": {"A": [S(4, 3, 2), S(1, 1), S(2, 2)], "B": [S(1, 1), S(3, 2)], "C": [S(2, 2, 2), S(1, 2)]},
         "Reqs": [
             Q("A", {3, 5, 8}), Q("B", {2, 4, 7}), Q("A", {4, 6}), Q("C", {3, 6, 9}), Q("A", {4, 5, 9}), Q("B", {4, 5}),
@@ -612,6 +633,25 @@ def simulate_world(tier):
         "MaxT": 9,
         "Steps": {1, 2, 3},
     }
+    # twelve requests, one hot model with four strategies, a model that is loaded nowhere
+    w["simB"] = {
+        "Strats": {"A": [S(2, 2), S(4, 4, 2), S(1, 2), S(3, 3)], "B": [S(2, 1, 2), S(1, 1)], "C": [S(1, 1)]},
+        "Reqs": [
+            Q("A", {4, 6}), Q("A", {4, 6}), Q("A", {5, 7}), Q("B", {2, 5}), Q("A", {5, 6}), Q("A", {6, 8}), Q("C", {5}),
+            Q("B", {3, 5}), Q("A", {6, 7}), Q("A", {3, 8}), Q("B", {4, 6}), Q("A", {7, 8}),
+        ],
+        "Workers": [Wk(2, "A"), Wk(2, "AB")],
+        "InitOrder": ["A", "C"],
+        "MaxT": 8,
+        "Steps": {1, 2},
+    }
+    return w
+
+
+def _crash_clause(msg):
+    """an exception out of schedule(): the virtual worker's ledger refusing an allocation is the
+    'worker can hold the strategy' clause, anything else is reported as a crash"""
+    return "C15.fits" if "allocate more than the available" in msg else "C15.crash"
 
 
 def _fix_coverage(r):
@@ -648,9 +688,9 @@ def jobs_M(tier):
     jobs = []
     for wn, w in mc_worlds(tier).items():
         for goal in ("clockwork", "least_slack"):
-            # `-coverage 1` roughly doubles the cost: per-action coverage is collected on the small worlds
-            # (and on every dumped graph in R)
-            jobs.append((_mc_job, (f"{wn}/{goal}", dict(w, Goal=goal), tier, wn in ("ties",))))
+            # `-coverage 1` roughly doubles the cost: per-action coverage is collected on the quick-tier
+            # worlds (and on every dumped graph in R)
+            jobs.append((_mc_job, (f"{wn}/{goal}", dict(w, Goal=goal), tier, wn in ("1w", "2w", "ties"))))
     return jobs
 
 
@@ -705,7 +745,7 @@ def _divergences(res, rp, name, broken_ids, world):
     exc = [d for d in rp.divergences if d.kind == "exception"]
     if exc:
         res.violate(
-            "C15.crash",
+            _crash_clause(exc[0].error or ""),
             f"{name}: the real objects raised while replaying a spec behaviour: {exc[0].error}",
             exc[0].detail(),
             key=f"crash|{name}|{sorted(exc[0].fields)}",
@@ -851,15 +891,17 @@ def jobs_R(tier):
     for wn, w in replay_worlds(tier).items():
         for goal in ("clockwork", "least_slack"):
             jobs.append((_replay_graph_job, (f"{wn}/{goal}", dict(w, Goal=goal), tier)))
-    sw = simulate_world(tier)
-    for goal in ("clockwork", "least_slack"):
-        for k in range(2 if q else 8):
-            jobs.append((_replay_sim_job, (f"sim/{goal}", dict(sw, Goal=goal), tier, 60 if q else 600, 30, 1000 + k)))
+    for sn, sw in simulate_worlds(tier).items():
+        for goal in ("clockwork", "least_slack"):
+            for k in range(1 if q else 4):
+                jobs.append(
+                    (_replay_sim_job, (f"{sn}/{goal}", dict(sw, Goal=goal), tier, 150 if q else 1000, 32, 1000 + k + 7919 * verif_seed()))
+                )
     return jobs
 
 
 def jobs_T(tier):
-    n, per = (1200, 300) if tier == "quick" else (40000, 2500)
+    n, per = (1600, 400) if tier == "quick" else (40000, 2500)
     return [(_t_job, (f"T{k}", per, tier)) for k in range(n // per)]
 
 
@@ -881,6 +923,11 @@ def _aggregate(extra):
             else:
                 a[k] = round(a.get(k, 0) + v, 1)
     extra["record_check"] = agg
+    rh = {}
+    for d in extra.get("random_histories", {}).values():
+        for k, v in d.items():
+            rh[k] = round(rh.get(k, 0) + v, 1)
+    extra["random_histories"] = rh
 
 
 # ---------------------------------------------------------------------------
